@@ -78,7 +78,7 @@ func genClientCloseCase(t *rapid.T) HostileCase {
 		Method: rapid.SampledFrom(methods[:min(n+1, len(methods))]).Draw(t, "spam_from"),
 		Nth:    0,
 		Kind:   "spam",
-		S:      rapid.SampledFrom([]string{"OPTIONS", "OPTIONS", "OPTIONS", "frame"}).Draw(t, "spam"),
+		S:      rapid.SampledFrom([]string{"OPTIONS", "OPTIONS", "OPTIONS", "frame", "SET_PARAMETER"}).Draw(t, "spam"),
 		N:      rapid.SampledFrom([]int{50, 100, 300, 1000, 5000}).Draw(t, "spam_gap_us"),
 	}}
 	if rapid.Bool().Draw(t, "idle_first") {
